@@ -42,6 +42,17 @@ CHECKS["C17"] = ("exploration",
     "Trusted: os.path of this (POSIX) platform as the judge of containment. Windows drive semantics are not observable here.",
     "DESIGN.md section 3 / C17")
 
+CHECKS["C16"] = ("exploration",
+    "postcondition monitor on Router.getRoute/dispatch against a reference segment matcher; bounded grammar enumerated exhaustively",
+    "contracts",
+    "Every (pattern, path) pair of the bounded documented grammar (patterns <=3/4 segments, paths <=4/5 segments over an alphabet "
+    "with prefixes/extensions of literals, regex metacharacters, empty segments, trailing slashes) is sent through the real "
+    "Router.getRoute and judged by a reference matcher written on path segments; seeded multi-route tables check first-match, "
+    "method separation and dispatch's 404. Exhaustive inside the bound (marked so), nothing claimed outside it.",
+    "Trusted: the reference matcher (40 lines, written from the documentation). Empty segments in ?/+/* positions are "
+    "unspecified and not judged.",
+    "DESIGN.md section 3 / C16")
+
 NOT_YET = {}
 
 
